@@ -500,7 +500,9 @@ def site_molden_mo(ctx, rid):
     prog = ctx.prog
     f = prog.func("iodata.formats.molden._load_helper_coeffs")
     licls = prog.cls("iodata.utils.LineIterator")
-    orbs = [("a1", -1.5, "Alpha", 2.0, [0.1, 0.2, 0.3]), ("b2", 0.5, "Alpha", 0.0, [0.4, 0.5, 0.6]), ("a1", -1.25, "Beta", 1.0, [0.7, 0.8, 0.9])]
+    # (the beta orbital stands between the two alpha orbitals: every orbital carries its own spin label, the format
+    # fixes no order)
+    orbs = [("a1", -1.5, "Alpha", 2.0, [0.1, 0.2, 0.3]), ("a1", -1.25, "Beta", 1.0, [0.7, 0.8, 0.9]), ("b2", 0.5, "Alpha", 0.0, [0.4, 0.5, 0.6])]
     lines = []
     for sym, ene, spin, occ, col in orbs:
         lines += [f" Sym= {sym}\n", f" Ene= {ene}\n", f" Spin= {spin}\n", f" Occup= {occ}\n"] + [f"{i + 1:4d} {c:.6f}\n" for i, c in enumerate(col)]
@@ -518,11 +520,11 @@ def site_molden_mo(ctx, rid):
         raise AnalysisError(f"molden._load_helper_coeffs is outside the evaluation whitelist: {exc}") from exc
     except (TypeError, ValueError) as exc:
         raise AnalysisError(f"molden._load_helper_coeffs: unexpected result of the model evaluation: {exc}") from exc
-    want_a = np.array([orbs[0][4], orbs[1][4]]).T
-    want_b = np.array([orbs[2][4]]).T
+    want_a = np.array([orbs[0][4], orbs[2][4]]).T
+    want_b = np.array([orbs[1][4]]).T
     for var, got, want in (("coeffsa", ca, want_a), ("coeffsb", cb, want_b)):
         if got.shape != want.shape or np.abs(got - want).max() > 1e-9:
-            ctx.violate(rid, f"Molden {var}: the orbitals of the model section come back as {got.tolist()} (shape {got.shape}); each orbital read from the file becomes a column: entry (basis function i, orbital j) = j-th orbital, i-th coefficient, expected {want.tolist()}", f, f.node, construct=f"Molden {var}: orientation")
+            ctx.violate(rid, f"Molden {var}: the orbitals of the model section (alpha, beta, alpha by their Spin= labels) come back as {got.tolist()} (shape {got.shape}); each orbital read from the file becomes a column: entry (basis function i, orbital j) = j-th orbital, i-th coefficient, expected {want.tolist()}", f, f.node, construct=f"Molden {var}: orientation")
         else:
             ctx.ok(rid, f"Molden {var}: each orbital read from the file becomes a column (whole section reader on a model stream)", f"{f.module.relpath}:{f.lineno}")
 
